@@ -216,7 +216,7 @@ func RunSeq(cfg SeqConfig) (*SeqResult, error) {
 			if int64(len(b.Data)) > cfg.MaxSize {
 				continue
 			}
-			seedBackend(proxy, cfg.Mode, b)
+			SeedBackend(proxy, cfg.Mode, b)
 		}
 	}
 
@@ -436,9 +436,9 @@ func RunSeq(cfg SeqConfig) (*SeqResult, error) {
 	return res, nil
 }
 
-// seedBackend stores b in the fake backend in the on-disk format of the
+// SeedBackend stores b in the fake backend in the on-disk format of the
 // given storage mode, by letting a scratch cache in that mode upload it.
-func seedBackend(p *FakeProxy, mode string, b Blob) {
+func SeedBackend(p *FakeProxy, mode string, b Blob) {
 	d, err := os.MkdirTemp("", "vh-seed")
 	if err != nil {
 		return
